@@ -9,6 +9,7 @@ CONSTANTS
   Reactions <- AllReactions
   HandlerReconnect = TRUE
   SrvMayStall = TRUE
+  HEAtomic = TRUE
   ShutdownBoth = FALSE
   Fixed = TRUE
   Emit = FALSE
